@@ -868,7 +868,7 @@ def _vcf_shards(tier):
     if T:
         add(3, 2, "full", 32)
         add(2, 3, "sub12", 16)
-        add(3, 3, "rot", 64)
+        add(3, 3, "rot", 48)
     else:
         add(3, 2, "rot", 4)
         add(2, 3, "rot", 4)
